@@ -527,18 +527,57 @@ Proof.
   intros Hex Hsolve up A b k HA Hb.
   destruct (Hex up A (proj1 HA)) as (Hok & _). destruct (Hok HA) as (L & E & HL & HLA).
   destruct (Hsolve up b L k Hb HL) as (X & EX & HX & HXb).
-  exists X. unfold Cholesky. rewrite E, has_nan_inject, strip_inject, EX. rewrite HLA in HXb. auto.
+  exists X. unfold Cholesky. rewrite E, has_nan_inject, strip_inject, EX. cbn. rewrite HLA in HXb. auto.
 Qed.
-(* NaN in the factor is the one thing the wrapper detects *)
+(* the failure clause (repaired source): a matrix that is not SPD makes forward() raise *)
+Theorem cholesky_wrapper_raises n cholesky_ex cholesky_solve :
+  chol_ex_contract n cholesky_ex ->
+  forall up (A b : matR), wf_mat n n A -> ~ SPD n A -> Cholesky cholesky_ex cholesky_solve up A b = None.
+Proof.
+  intros Hex up A b Hwf HA. destruct (Hex up A Hwf) as (_ & Hfail). specialize (Hfail HA).
+  unfold Cholesky. destruct (cholesky_ex up A) as [L info]. cbn [snd] in Hfail.
+  replace (info =? 0)%Z with false by (symmetry; now apply Z.eqb_neq). cbn. now rewrite orb_true_r.
+Qed.
+(* both clauses *)
+Theorem cholesky_wrapper n cholesky_ex cholesky_solve :
+  chol_ex_contract n cholesky_ex -> chol_solve_contract n cholesky_solve ->
+  forall up (A b : matR) k, wf_mat n n A -> wf_mat n k b ->
+  (SPD n A -> exists X, Cholesky cholesky_ex cholesky_solve up A b = Some (inject X) /\ wf_mat n k X /\ mm A X = b) /\
+  (~ SPD n A -> Cholesky cholesky_ex cholesky_solve up A b = None).
+Proof.
+  intros Hex Hsolve up A b k HA Hb. split.
+  - intros HS. now apply (cholesky_wrapper_spd n).
+  - intros HS. now apply (cholesky_wrapper_raises n).
+Qed.
+(* a returned value is never a silent wrong answer: whenever forward() returns, the oracle reported
+   success (info = 0, NaN-free factor) *)
+Theorem cholesky_returns_only_on_success cholesky_ex cholesky_solve up (A b : matR) X :
+  Cholesky cholesky_ex cholesky_solve up A b = Some X ->
+  snd (cholesky_ex up A) = 0%Z /\ has_nan (fst (cholesky_ex up A)) = false.
+Proof.
+  unfold Cholesky. destruct (cholesky_ex up A) as [L info]. cbn [fst snd].
+  destruct (has_nan L); cbn; [discriminate|]. destruct (info =? 0)%Z eqn:E; cbn; [|discriminate].
+  intros _. split; auto. now apply Z.eqb_eq.
+Qed.
+(* NaN in the factor raises (both before and after the repair) *)
 Theorem cholesky_wrapper_nan cholesky_ex cholesky_solve up (A b : matR) :
   has_nan (fst (cholesky_ex up A)) = true -> Cholesky cholesky_ex cholesky_solve up A b = None.
 Proof. intros H. unfold Cholesky. destruct (cholesky_ex up A) as [L info]. cbn [fst] in H. now rewrite H. Qed.
-(* [info] is never read: the result does not depend on it *)
-Theorem cholesky_ignores_info (ce1 ce2 : bool -> matR -> xmat (F:=R) * Z) cholesky_solve up (A b : matR) :
-  fst (ce1 up A) = fst (ce2 up A) -> Cholesky ce1 cholesky_solve up A b = Cholesky ce2 cholesky_solve up A b.
-Proof. unfold Cholesky. destruct (ce1 up A), (ce2 up A). cbn. now intros ->. Qed.
+(* history: before the repair [info] was never read: the result did not depend on it *)
+Theorem cholesky_old_ignores_info (ce1 ce2 : bool -> matR -> xmat (F:=R) * Z) cholesky_solve up (A b : matR) :
+  fst (ce1 up A) = fst (ce2 up A) -> Cholesky_old ce1 cholesky_solve up A b = Cholesky_old ce2 cholesky_solve up A b.
+Proof. unfold Cholesky_old. destruct (ce1 up A), (ce2 up A). cbn. now intros ->. Qed.
+(* on SPD input the repaired and the old wrapper agree *)
+Theorem cholesky_old_same_on_success cholesky_ex cholesky_solve up (A b : matR) :
+  snd (cholesky_ex up A) = 0%Z ->
+  Cholesky cholesky_ex cholesky_solve up A b = Cholesky_old cholesky_ex cholesky_solve up A b.
+Proof.
+  unfold Cholesky, Cholesky_old. destruct (cholesky_ex up A) as [L info]. cbn [snd]. intros ->.
+  cbn. now rewrite orb_false_r.
+Qed.
 
-(* ---- the failure clause is refuted on the faithful model ---- *)
+(* ---- history: the failure clause was refuted on the faithful model of the source BEFORE the repair
+        (Cholesky_old; /repo 50a1217 added the info check) ---- *)
 (* explicit oracles for 1 x 1 systems: LAPACK's potrf on [[a]] answers (sqrt a, 0) for a > 0 and leaves
    a in place with info = 1 otherwise; potrs divides by l^2 *)
 Definition chol1 (up : bool) (A : matR) : xmat (F:=R) * Z :=
@@ -607,13 +646,13 @@ Qed.
 Theorem cholesky_raise_refuted :
   exists (n : nat) cholesky_ex cholesky_solve, chol_ex_contract n cholesky_ex /\ chol_solve_contract n cholesky_solve /\
     exists (A b X : matR), wf_mat n n A /\ wf_mat n 1 b /\ ~ SPD n A /\ snd (cholesky_ex false A) <> 0%Z /\
-      Cholesky cholesky_ex cholesky_solve false A b = Some (inject X) /\ mm A X <> b.
+      Cholesky_old cholesky_ex cholesky_solve false A b = Some (inject X) /\ mm A X <> b.
 Proof.
   exists 1%nat, chol1, solve1. split; [exact chol1_contract|split; [exact solve1_contract|]].
   exists [[-1]], [[1]], [[1 / (-1 * -1)]].
   split; [split; [reflexivity|repeat constructor]|]. split; [split; [reflexivity|repeat constructor]|].
   split; [intros H; apply SPD_1 in H; lra|].
-  unfold Cholesky, chol1. destruct (Rlt_dec 0 (-1)); [lra|].
+  unfold Cholesky_old, chol1. destruct (Rlt_dec 0 (-1)); [lra|].
   split; [cbn; discriminate|]. split; [reflexivity|].
   cbn. num_unfold. intros H. inversion H. lra.
 Qed.
@@ -644,7 +683,7 @@ Theorem cholesky_raise_refuted_witness cholesky_ex cholesky_solve :
   chol_ex_contract 2 cholesky_ex -> chol_solve_contract 2 cholesky_solve ->
   exists cholesky_ex', chol_ex_contract 2 cholesky_ex' /\
     cholesky_ex' false Awit = (inject Lwit, 2%Z) /\ ~ SPD 2 Awit /\
-    exists X, Cholesky cholesky_ex' cholesky_solve false Awit bwit = Some (inject X) /\ mm Awit X <> bwit.
+    exists X, Cholesky_old cholesky_ex' cholesky_solve false Awit bwit = Some (inject X) /\ mm Awit X <> bwit.
 Proof.
   intros Hex Hsolve.
   set (ce := fun (up : bool) (A : matR) => if mat_eq_dec A Awit then (inject Lwit, 2%Z) else cholesky_ex up A).
@@ -656,7 +695,7 @@ Proof.
     { split; [reflexivity|repeat constructor]. }
     { exact Lwit_factor. }
     exists X. split.
-    + unfold Cholesky, ce. destruct (mat_eq_dec Awit Awit); [|congruence].
+    + unfold Cholesky_old, ce. destruct (mat_eq_dec Awit Awit); [|congruence].
       now rewrite has_nan_inject, strip_inject, EX.
     + destruct X as [|r1 [|r2 [|]]]; try discriminate. inversion HX2 as [|? ? Hr1 HX3]; subst.
       inversion HX3 as [|? ? Hr2 _]; subst.
@@ -783,9 +822,22 @@ Proof.
     destruct (IH bs H2 H4 ltac:(lia)) as (Xs & E & HXl & HX).
     destruct (Hex up A (proj1 H1)) as (Hok & _). destruct (Hok H1) as (L & EL & HL & HLA).
     destruct (Hsolve up b L k H3 HL) as (X & EX & _ & HXb).
-    cbn [map existsb map2]. rewrite EL. cbn [fst]. rewrite has_nan_inject, strip_inject, EX. cbn [orb].
+    cbn [map existsb map2]. rewrite EL. cbn [fst snd]. rewrite has_nan_inject, strip_inject, EX. cbn [orb Z.eqb negb].
     destruct (existsb (fun Li => has_nan (fst Li)) (map (cholesky_ex up) As)); [discriminate|].
-    inversion E as [E']. exists (X :: Xs). cbn [map]. rewrite E'. split; [reflexivity|]. split; [cbn; lia|].
+    destruct (existsb (fun Li => negb (snd Li =? 0)%Z) (map (cholesky_ex up) As)); [discriminate|].
+    cbn [orb] in *. inversion E as [E']. exists (X :: Xs). cbn [map]. rewrite E'. split; [reflexivity|]. split; [cbn; lia|].
     intros [|i] Hi; cbn in *; [now rewrite <- HLA|]. apply HX. lia.
+Qed.
+(* one member of the batch that is not positive definite makes the whole call raise *)
+Theorem cholesky_batch_raises up (As bs : list matR) :
+  Forall (wf_mat n n) As -> Exists (fun A => ~ SPD n A) As -> Cholesky_batch cholesky_ex cholesky_solve up As bs = None.
+Proof.
+  intros Hwf Hbad. unfold Cholesky_batch.
+  assert (E : existsb (fun Li => negb (snd Li =? 0)%Z) (map (cholesky_ex up) As) = true).
+  { apply existsb_exists. apply Exists_exists in Hbad. destruct Hbad as (A & HinA & HA).
+    exists (cholesky_ex up A). split; [now apply in_map|].
+    rewrite Forall_forall in Hwf. destruct (Hex up A (Hwf A HinA)) as (_ & Hf). specialize (Hf HA).
+    apply negb_true_iff. now apply Z.eqb_neq. }
+  rewrite E. now rewrite orb_true_r.
 Qed.
 End BatchWrappers.
